@@ -124,11 +124,14 @@ func (a *Aggregate) nextLine() (line *line.Line, ok bool, noMoreChannels bool) {
 	select {
 	case line, ok = <-a.linesCh:
 		if !ok {
+			vhook.At("agg.closed", a)
 			// Channel is closed, go to next channel.
 			select {
 			case a.linesCh = <-a.NextLinesCh:
+				vhook.At("agg.next", a)
 			default:
 				noMoreChannels = true
+				vhook.At("agg.exit", a)
 			}
 		}
 	default:
@@ -136,7 +139,8 @@ func (a *Aggregate) nextLine() (line *line.Line, ok bool, noMoreChannels bool) {
 		select {
 		case newLinesCh := <-a.NextLinesCh:
 			oldLinesCh := a.linesCh
-			go func() { a.NextLinesCh <- oldLinesCh }()
+			vhook.At("agg.swap", a)
+			go func() { vhook.At("agg.requeue", a); a.NextLinesCh <- oldLinesCh; vhook.At("agg.requeued", a) }()
 			a.linesCh = newLinesCh
 		default:
 			// No new lines channel found.
